@@ -157,6 +157,55 @@ void XMLGrammarPoolImpl::lockPool()
         {
             createXSModel();
         }
+
+        //  The grammars of a locked pool are shared by all the parsers that
+        //  use it, possibly from different threads. Element content models
+        //  (and the attribute lists of DTD elements) are created lazily the
+        //  first time an element is validated, so create them now, while
+        //  nobody else is using the grammars.
+        RefHashTableOfEnumerator<Grammar> grammarEnum(fGrammarRegistry, false, memMgr);
+        while (grammarEnum.hasMoreElements())
+        {
+            Grammar& grammar = grammarEnum.nextElement();
+            try
+            {
+                if (grammar.getGrammarType() == Grammar::SchemaGrammarType)
+                {
+                    RefHashTableOf<ComplexTypeInfo>* typeRegistry =
+                        ((SchemaGrammar&) grammar).getComplexTypeRegistry();
+                    if (typeRegistry)
+                    {
+                        RefHashTableOfEnumerator<ComplexTypeInfo> typeEnum(typeRegistry, false, memMgr);
+                        while (typeEnum.hasMoreElements())
+                            typeEnum.nextElement().getContentModel();
+                    }
+                }
+                else if (grammar.getGrammarType() == Grammar::DTDGrammarType)
+                {
+                    NameIdPoolEnumerator<DTDElementDecl> elemEnum =
+                        ((DTDGrammar&) grammar).getElemEnumerator();
+                    while (elemEnum.hasMoreElements())
+                    {
+                        DTDElementDecl& elemDecl = elemEnum.nextElement();
+                        // the attribute list is faulted in lazily as well
+                        elemDecl.getAttDefList();
+                        // EMPTY and ANY elements have no content model
+                        if (elemDecl.getModelType() != DTDElementDecl::Empty &&
+                            elemDecl.getModelType() != DTDElementDecl::Any)
+                            elemDecl.getContentModel();
+                    }
+                }
+            }
+            catch(const OutOfMemoryException&)
+            {
+                throw;
+            }
+            catch(...)
+            {
+                // Leave it to be created, and any problem to be reported,
+                // when the element is first validated
+            }
+        }
     }
 }
 
